@@ -639,14 +639,14 @@ class RoaringIdSet(DocIdSet):
         return (n - (bucket << 16)) in self.idsets[bucket]
 
     def __iter__(self):
-        for i, idset in self.idsets:
+        for i, idset in enumerate(self.idsets):
             floor = i << 16
             for n in idset:
                 yield floor + n
 
     def _find(self, n):
         bucket = n >> 16
-        floor = n << 16
+        floor = bucket << 16
         if bucket >= len(self.idsets):
             self.idsets.extend([SortedIntSet() for _
                                 in xrange(len(self.idsets), bucket + 1)])
